@@ -528,9 +528,163 @@ def p_ctor_own_output(m, recs):
     return None
 
 
+# ------------------------------------------------------------------ one object used repeatedly (stale state)
+# The descriptor object is naturally long-lived (a wallet asks it for address after address, on both branches):
+# the predicates below keep descriptor objects alive, ask get_address with different (offset, branch, sort_keys)
+# in different orders and twice in a row, alternate between objects, edit the public fields get_address reads
+# (quorum_m, key_records in place, network) and compare every answer with the independent BIP32 / P2WSH /
+# bech32 reference evaluated on the CURRENT public fields.
+
+def _ref_address(o, offset, chg, srt):
+    secs = [ref_child_sec(r["xpub_parent"], r["account_index"] + (1 if chg else 0), offset) for r in o.key_records]
+    if srt:
+        script = ref_script(o.quorum_m, secs)
+    else:
+        script = bytes([80 + o.quorum_m]) + b"".join(bytes([len(x)]) + x for x in secs) + bytes([80 + len(secs), 174])
+    return ref_p2wsh_address(hashlib.sha256(script).digest(), NETNUM[o.network])
+
+
+def p_reuse_desc(wallets, spares, seed, nops):
+    import random
+    r = random.Random(seed)
+    objs = [P2WSHSortedMulti(m, mkrecs(recs)) for m, recs in wallets]
+    texts = [str(o) for o in objs]
+    edited = [False] * len(objs)
+    spares = [_s(x) for x in spares]
+    offsets = [0, 1, 2, 2 ** 31 - 1, r.randrange(2 ** 31), r.randrange(1000)]
+    last = None
+    for step in range(nops):
+        w = r.randrange(len(objs))
+        o = objs[w]
+        k = r.random()
+        if k < 0.68:
+            if last is not None and r.random() < 0.2:
+                q = last                         # the same question twice in a row
+            else:
+                q = (w, r.choice(offsets), r.random() < 0.5, r.random() < 0.85)
+            last = q
+            w, off, chg, srt = q
+            o = objs[w]
+            got = o.get_address(offset=off, is_change=chg, sort_keys=srt)
+            want = _ref_address(o, off, chg, srt)
+            if got != want:
+                return (f"step {step}: get_address(offset={off}, is_change={chg}, sort_keys={srt}) on the reused descriptor "
+                        f"{w} gives {got}; P2WSH of the script over the BIP32 children of its current records is {want}")
+            if not edited[w] and (str(o) != texts[w] or f"{o.descriptor_text}#{o.checksum}" != texts[w]):
+                return f"step {step}: the descriptor text changed after get_address"
+        elif k < 0.74:
+            if not edited[w] and (str(o) != texts[w] or o.m_of_n != f"{o.quorum_m}-of-{len(o.key_records)}"):
+                return f"step {step}: str()/m_of_n of the reused descriptor changed"
+        else:
+            edited[w] = True
+            last = None
+            e = r.randrange(7)
+            recs = o.key_records
+            if e == 0:
+                o.quorum_m = r.randrange(1, len(recs) + 1)
+            elif e == 1:
+                r.choice(recs)["account_index"] = r.choice([0, 1, 2, 7, 2 ** 31 - 2, r.randrange(2 ** 31 - 1)])
+            elif e == 2:
+                recs.reverse()
+            elif e == 3:
+                cands = [x for x in spares if (x[:4] == "xpub") == (o.network == "mainnet")
+                         and x not in [q["xpub_parent"] for q in recs]]
+                if cands:
+                    r.choice(recs)["xpub_parent"] = r.choice(cands)
+            elif e == 4:
+                if len(recs) > 1:
+                    recs.pop(r.randrange(len(recs)))
+                    o.quorum_m = min(o.quorum_m, len(recs))
+            elif e == 5:
+                cands = [x for x in spares if (x[:4] == "xpub") == (o.network == "mainnet")
+                         and x not in [q["xpub_parent"] for q in recs]]
+                if cands and len(recs) < 4:
+                    recs.append({"xfp": "00000000", "path": "m", "xpub_parent": r.choice(cands), "account_index": r.randrange(4)})
+            else:
+                o.key_records = [dict(q) for q in reversed(recs)]
+    return None
+
+
+def p_checksum_order(texts):
+    """calc_core_checksum called on a sequence of texts (equal lengths, shared prefixes, repeats)"""
+    for n, t in enumerate(texts):
+        d = p_checksum_ref(t)
+        if d:
+            return f"call {n}: " + d
+    return None
+
+
+def p_parse_order(texts, order):
+    """P2WSHSortedMulti.parse on several descriptors alternately: each time the text is reproduced, and a body with
+    another descriptor's checksum is rejected"""
+    texts = [_s(t) for t in texts]
+    for n, (i, variant) in enumerate(order):
+        t = texts[i]
+        body, _, cs = t.rpartition("#")
+        if variant == 0:
+            if str(P2WSHSortedMulti.parse(t)) != t:
+                return f"call {n}: parse(text {i}) does not reproduce the text"
+        elif variant == 1:
+            o = P2WSHSortedMulti.parse(body)
+            if str(o) != t or o.checksum != ref_checksum(body):
+                return f"call {n}: parse(body {i}) does not compute the checksum of that body"
+        else:
+            other = texts[(i + 1) % len(texts)].rpartition("#")[2]
+            if other != cs and _accepts(body + "#" + other) is not None:
+                return f"call {n}: body {i} accepted with the checksum of another descriptor"
+    return None
+
+
+def p_ctor_pure(m, recs, offset):
+    """constructor, parse and get_address leave their arguments and the object's records/text untouched"""
+    import copy
+    records = mkrecs(recs)
+    snap = copy.deepcopy(records)
+    a = P2WSHSortedMulti(m, records)
+    if records != snap:
+        return "the constructor modified the key records it was given"
+    b = P2WSHSortedMulti(m, records)
+    if not _same(a, b) or str(a) != str(b):
+        return "two descriptors built from the same key records differ"
+    before = (a.quorum_m, copy.deepcopy(a.key_records), a.descriptor_text, a.checksum, a.network)
+    x1 = a.get_address(offset, False)
+    y1 = a.get_address(offset, True)
+    x2 = a.get_address(offset, False)
+    if x1 != x2 or x1 == y1:
+        return "get_address(receive) changed after get_address(change) on the same object"
+    if before != (a.quorum_m, a.key_records, a.descriptor_text, a.checksum, a.network) or records != snap:
+        return "get_address modified the descriptor or the caller's key records"
+    if x1 != b.get_address(offset, False) or x1 != _ref_address(a, offset, False, True):
+        return "a descriptor that was used before gives another address than a fresh one"
+    return None
+
+
+def p_reuse_hdpub(xpub, idxs):
+    """ONE HDPublicKey object (and one of its children) asked for children at different indexes, repeatedly"""
+    xpub = _s(xpub)
+    body = ref_b58check_decode(xpub)
+    h = HDPublicKey.parse(xpub)
+    sub = None
+    for n, (i, j) in enumerate(idxs):
+        c = h.child(i)
+        chain, sec = ref_ckd_pub(body[13:45], body[45:78], i)
+        if c.sec() != sec or c.chain_code != chain:
+            return f"call {n}: child({i}) of the reused HDPublicKey differs from BIP32 CKDpub"
+        if sub is None:
+            sub, sub_ref = c, (chain, sec)
+        g = sub.child(j)
+        if g.sec() != ref_ckd_pub(sub_ref[0], sub_ref[1], j)[1]:
+            return f"call {n}: child({j}) of the reused child key differs from BIP32 CKDpub"
+        if h.xpub() != xpub or h.sec() != body[45:78]:
+            return f"call {n}: the parent key changed after child()"
+    return None
+
+
 PROPS = {"checksum_ref": p_checksum_ref, "vectors": p_vectors, "roundtrip": p_roundtrip, "order": p_order,
          "address": p_address, "subst": p_subst, "subst_separator": p_subst_separator,
-         "regex_class": p_regex_class, "ctor_own_output": p_ctor_own_output}
+         "regex_class": p_regex_class, "ctor_own_output": p_ctor_own_output,
+         "reuse_desc": p_reuse_desc, "checksum_order": p_checksum_order, "parse_order": p_parse_order,
+         "ctor_pure": p_ctor_pure, "reuse_hdpub": p_reuse_hdpub}
 
 
 def classify(v):
@@ -784,3 +938,42 @@ def generate(ctx):
             yield ("prop", "subst", [text, pos])
     for text in sampled[: ctx.n(3, 20)]:
         yield ("prop", "subst_separator", [text])
+
+    # ---- one object used repeatedly: stale memoised state on descriptor / key objects, coarse module-level caches
+    small = [w for w in wallets if w[1] <= 3 and all(i + 1 < 2 ** 31 for _, _, _, i in w[3])]
+    for num in range(ctx.n(3, 30)):
+        ws = r.sample(small, 2)
+        spares = [k.plain for net in NETS for k in pool[net]]
+        ctx.label("reuse/descriptor")
+        yield ("prop", "reuse_desc", [[[m, recs] for m, n, net, recs in ws], spares, r.getrandbits(30), ctx.n(22, 50)])
+    for m, n, net, recs in small[: ctx.n(3, 20)]:
+        ctx.label("reuse/ctor-pure")
+        yield ("prop", "ctor_pure", [m, recs, r.choice(EDGE + [r.randrange(2 ** 31)])])
+    for _ in range(ctx.n(4, 60)):
+        base = r.choice(sampled).rpartition("#")[0]
+        seq = []
+        for _ in range(12):
+            k = r.randrange(5)
+            if k == 0:
+                seq.append(base)
+            elif k == 1:
+                i = r.randrange(len(base))
+                seq.append(base[:i] + r.choice(INPUT_CHARSET) + base[i + 1:])
+            elif k == 2:
+                seq.append(base[: r.randrange(len(base))])
+            elif k == 3:
+                seq.append(r.choice(sampled).rpartition("#")[0])
+            else:
+                seq.append(rtext(r, len(base)))
+        ctx.label("reuse/checksum-order")
+        yield ("prop", "checksum_order", [seq])
+    shortest = sorted(sampled, key=len)[:3]
+    for _ in range(ctx.n(1, 10)):
+        ts = r.sample(shortest, 2)
+        ctx.label("reuse/parse-order")
+        yield ("prop", "parse_order", [ts, [[r.randrange(2), r.randrange(3)] for _ in range(ctx.n(8, 16))]])
+    for net in NETS:
+        k = r.choice(pool[net])
+        idxs = [[r.choice([0, 1, 2, 2 ** 31 - 1]), r.choice([0, 1, 5, 2 ** 31 - 1])] for _ in range(ctx.n(6, 20))]
+        ctx.label("reuse/hdpublickey")
+        yield ("prop", "reuse_hdpub", [k.plain, idxs])
